@@ -1,8 +1,22 @@
 import Robust.Api.Model
 import Robust.Irc.Proofs.AMapLemmas
+import Robust.Irc.Proofs.FrmCheck
 import Robust.Gen.Exprs
 /-!
 # C10 — a retried POST (same client message id) is never applied twice
+
+Part 1 (decision level): what the POST handler and the first step of the state machine do with the
+marker `Session.lastClientMessageId`.
+
+Part 2 (frame): the marker is written **only** by `updateLastClientMessageID` — none of the 41
+command handlers, nor the address / registration stages of `ProcessMessage`, nor
+`MaybeDeleteSession` touches the marker of any stored session (`C10_handlers_keep_marker`,
+`C10_processMessage_keeps_marker`); hence per entry type (`C10_client_entry_marker`,
+`C10_death_entry_marker`, `C10_other_entries_keep_marker`, `C10_new_session_marker_zero`) and along
+every well-formed history (`C10_marker_is_last_cmid`): the marker of a stored client session is the
+client message id of the last client entry / message of death of that session, so the retry test
+of the POST handler answers exactly for that id (`C10_retry_after_history`).
+Helpers: `Robust/Irc/Proofs/Frm*.lean`.
 -/
 namespace Robust.Props.C10
 open Robust Robust.Irc Robust.Api
@@ -63,5 +77,243 @@ theorem C10_wiring :
     Gen.Exprs.fact "post.msg.ClientMessageId" = "req.ClientMessageId" ∧
     Gen.Exprs.fact "post.msg.Session" = "session" ∧
     Gen.Exprs.fact "death.case.first" = "i.UpdateLastClientMessageID(msg)" := by decide
+
+/-! ## Part 2 — nothing but `updateLastClientMessageID` writes the marker -/
+
+/-- **Frame, handlers.** For every handler `h` of the command table and every session `σ` stored
+after a run of `h` (the actor or anybody else): either `σ` was stored before and carries the same
+marker, or `σ` was not stored before — then it is a services pseudo-client created by this run
+(services `NICK`; its id has `reply ≠ 0`) and its marker is `0`.
+Hypotheses: the acting session is one the HTTP API can name (`reply = 0`) and sessions are stored
+under their own id without duplicate keys (`SessWf`, two conjuncts of the global invariant; without
+them `putS` could overwrite a *different* session). -/
+theorem C10_handlers_keep_marker {fname : String} {h : Handler} (hh : handlerByName fname = some h)
+    {c c' : Ctx} {sid : Id} {m : IrcMsg} (h0 : sid.reply = 0) (hw : SessWf c.st) (hr : h c sid m = .ok c')
+    {σ : Id} {s' : Session} (hs' : AMap.get c'.st.sessions σ = some s') :
+    (∃ s, AMap.get c.st.sessions σ = some s ∧ s'.lastClientMessageId = s.lastClientMessageId) ∨
+    (AMap.get c.st.sessions σ = none ∧ s'.lastClientMessageId = 0 ∧ σ.reply ≠ 0) := by
+  rcases (handler_frmM hh c sid m c' h0 hw hr).mark σ s' hs' with ⟨s, hs, e⟩ | ⟨hn, e, hrep, _⟩
+  · exact Or.inl ⟨s, hs, e⟩
+  · exact Or.inr ⟨hn, e, hrep⟩
+
+/-- … and no handler removes a session from the map (sessions are only flagged `deleted`;
+`MaybeDeleteSession` removes them afterwards): every session stored before is stored after, with the
+same marker. -/
+theorem C10_handlers_keep_sessions {fname : String} {h : Handler} (hh : handlerByName fname = some h)
+    {c c' : Ctx} {sid : Id} {m : IrcMsg} (h0 : sid.reply = 0) (hw : SessWf c.st) (hr : h c sid m = .ok c')
+    {σ : Id} {s : Session} (hs : AMap.get c.st.sessions σ = some s) :
+    ∃ s', AMap.get c'.st.sessions σ = some s' ∧ s'.lastClientMessageId = s.lastClientMessageId := by
+  have f := handler_frmM hh c sid m c' h0 hw hr
+  cases hg : AMap.get c'.st.sessions σ with
+  | none => rw [f.mono σ hg] at hs; cases hs
+  | some s' => exact ⟨s', rfl, (f.mark σ s' hg).old hs⟩
+
+/-- **Frame, `ProcessMessage`** (address bookkeeping and GLINE-ban check, registration gate, table
+lookup, handler): the same statement. -/
+theorem C10_processMessage_keeps_marker {c c' : Ctx} {e : Entry} {im : Option IrcMsg}
+    (h0 : e.session.reply = 0) (hw : SessWf c.st) (hr : processMessage c e im = .ok c')
+    {σ : Id} {s' : Session} (hs' : AMap.get c'.st.sessions σ = some s') :
+    (∃ s, AMap.get c.st.sessions σ = some s ∧ s'.lastClientMessageId = s.lastClientMessageId) ∨
+    (AMap.get c.st.sessions σ = none ∧ s'.lastClientMessageId = 0 ∧ σ.reply ≠ 0) := by
+  rcases (processMessage_frm h0 hw hr).1.mark σ s' hs' with ⟨s, hs, e⟩ | ⟨hn, e, hrep, _⟩
+  · exact Or.inl ⟨s, hs, e⟩
+  · exact Or.inr ⟨hn, e, hrep⟩
+
+/-- **Client entry (type 2).** After `applyEntry`, the marker of the entry's session — if it is
+still stored — is exactly the entry's client message id, whatever the line did; and every other
+session that was stored before and is still stored carries its old marker. -/
+theorem C10_client_entry_marker {st st' : St} {e : Entry} {out : List Out} (hw : SessWf st) (he : EntryOk st e)
+    (ht : e.type = 2) (hr : applyEntry st e = .ok (st', out)) :
+    (∀ s', AMap.get st'.sessions e.session = some s' → s'.lastClientMessageId = e.cmid) ∧
+    (∀ σ s s', σ ≠ e.session → AMap.get st.sessions σ = some s → AMap.get st'.sessions σ = some s' →
+      s'.lastClientMessageId = s.lastClientMessageId) :=
+  ⟨fun _ hs' => (applyEntry_marker hw he hr hs').1 (Or.inl ht) rfl,
+   fun _ s _ hne hs hs' => (applyEntry_marker hw he hr hs').2.1 (fun h => hne h.2) s hs⟩
+
+/-- **Message of death (type 5)**: likewise — the skipped message still moves the marker of its
+session, and only that one. -/
+theorem C10_death_entry_marker {st st' : St} {e : Entry} {out : List Out} (hw : SessWf st) (he : EntryOk st e)
+    (ht : e.type = 5) (hr : applyEntry st e = .ok (st', out)) :
+    (∀ s', AMap.get st'.sessions e.session = some s' → s'.lastClientMessageId = e.cmid) ∧
+    (∀ σ s s', σ ≠ e.session → AMap.get st.sessions σ = some s → AMap.get st'.sessions σ = some s' →
+      s'.lastClientMessageId = s.lastClientMessageId) :=
+  ⟨fun _ hs' => (applyEntry_marker hw he hr hs').1 (Or.inr ht) rfl,
+   fun _ s _ hne hs hs' => (applyEntry_marker hw he hr hs').2.1 (fun h => hne h.2) s hs⟩
+
+/-- **All other entries** (CreateSession 0, DeleteSession 1, Config 6, unknown types): no session
+that was stored before changes its marker.  (`EntryOk` is used for type 0: the id of a CreateSession
+entry is fresh — otherwise `createSession` would overwrite the stored session, marker included.) -/
+theorem C10_other_entries_keep_marker {st st' : St} {e : Entry} {out : List Out} (hw : SessWf st)
+    (he : EntryOk st e) (h2 : e.type ≠ 2) (h5 : e.type ≠ 5) (hr : applyEntry st e = .ok (st', out))
+    {σ : Id} {s s' : Session} (hs : AMap.get st.sessions σ = some s) (hs' : AMap.get st'.sessions σ = some s') :
+    s'.lastClientMessageId = s.lastClientMessageId :=
+  (applyEntry_marker hw he hr hs').2.1 (fun h => h.1.elim h2 h5) s hs
+
+/-- A session that appears with an entry (CreateSession, services `NICK`) starts with marker `0`;
+and with `reply = 0` it can only be the session of a CreateSession entry. -/
+theorem C10_new_session_marker_zero {st st' : St} {e : Entry} {out : List Out} (hw : SessWf st)
+    (he : EntryOk st e) (hr : applyEntry st e = .ok (st', out))
+    {σ : Id} {s' : Session} (hn : AMap.get st.sessions σ = none) (hs' : AMap.get st'.sessions σ = some s') :
+    s'.lastClientMessageId = 0 ∧ (σ.reply = 0 → e.type = 0 ∧ σ = ⟨e.id, 0⟩) :=
+  (applyEntry_marker hw he hr hs').2.2 hn
+
+/-- **Corollary, histories.** Along any well-formed history the marker of a stored client session
+`σ` (`reply = 0`) is `expectedMarker σ m0 es`: the client message id of the last client entry /
+message of death of `σ` (a CreateSession entry that creates `σ` resets it to `0`; `m0` is the marker
+`σ` had before the history, if it was stored then). -/
+theorem C10_marker_is_last_cmid {st st' : St} {es : List Entry} {σ : Id} {m0 : Nat} (hw : SessWf st)
+    (hwf : WfHistory st es) (hσ : σ.reply = 0)
+    (hP : ∀ s, AMap.get st.sessions σ = some s → s.lastClientMessageId = m0)
+    (hr : runEntries st es = .ok st') {s' : Session} (hs' : AMap.get st'.sessions σ = some s') :
+    s'.lastClientMessageId = expectedMarker σ m0 es :=
+  run_marker hw hwf hσ hP hr s' hs'
+
+/-- entries that are neither client entries / messages of death of `σ` nor create `σ` leave the
+expected marker alone -/
+theorem expectedMarker_quiet (σ : Id) (m : Nat) (es : List Entry)
+    (hq : ∀ e ∈ es, ¬((e.type = 2 ∨ e.type = 5) ∧ e.session = σ) ∧ ¬(e.type = 0 ∧ (⟨e.id, 0⟩ : Id) = σ)) :
+    expectedMarker σ m es = m := by
+  induction es generalizing m with
+  | nil => rfl
+  | cons e es ih =>
+    unfold expectedMarker
+    rw [List.foldl_cons]
+    have h1 := hq e (List.mem_cons_self ..)
+    have : markerStep σ m e = m := by
+      unfold markerStep
+      rw [if_neg h1.1, if_neg h1.2]
+    rw [this]
+    exact ih m (fun e' he' => hq e' (List.mem_cons_of_mem _ he'))
+
+/-- the expected marker after a history `es1 ++ e :: es2` in which `e` is the last entry of `σ` -/
+theorem expectedMarker_last (σ : Id) (m0 : Nat) (es1 es2 : List Entry) (e : Entry)
+    (he : (e.type = 2 ∨ e.type = 5) ∧ e.session = σ)
+    (hq : ∀ e' ∈ es2, ¬((e'.type = 2 ∨ e'.type = 5) ∧ e'.session = σ) ∧ ¬(e'.type = 0 ∧ (⟨e'.id, 0⟩ : Id) = σ)) :
+    expectedMarker σ m0 (es1 ++ e :: es2) = e.cmid := by
+  unfold expectedMarker
+  rw [List.foldl_append, List.foldl_cons]
+  have : markerStep σ (List.foldl (markerStep σ) m0 es1) e = e.cmid := by
+    unfold markerStep; rw [if_pos he]
+  rw [this]
+  exact expectedMarker_quiet σ e.cmid es2 hq
+
+/-- an authenticated session is stored and has `reply = 0` -/
+theorem session_stored {st : St} {hdr : Option String} {idStr : String} {σ : Id}
+    (h : session st hdr idStr = .ok σ) : (∃ s, AMap.get st.sessions σ = some s) ∧ σ.reply = 0 := by
+  unfold session at h
+  split at h
+  · cases h
+  · rename_i id _
+    dsimp only at h
+    split at h
+    · cases h
+    · split at h
+      · cases h
+      · rename_i s hgs
+        split at h
+        · simp only [Except.ok.injEq] at h
+          subst h
+          refine ⟨?_, rfl⟩
+          unfold getSession at hgs
+          cases hg : AMap.get st.sessions ⟨id, 0⟩ with
+          | some s0 => exact ⟨s0, rfl⟩
+          | none =>
+            rw [hg] at hgs
+            simp only at hgs
+            split at hgs <;> cases hgs
+        · cases h
+
+/-- **Capstone.** Replica-independent form of the property: on *any* node whose state is the result
+of a well-formed history in which the client entry `e` (client message id `e.cmid`) is the last
+entry of session `σ` — whatever other sessions did before and after — a POST of `σ` that repeats
+`e.cmid` is acknowledged without proposing anything (if `σ` is gone, `session` fails and
+`C10_retry_after_close` applies). -/
+theorem C10_retry_after_history {st st' : St} {es1 es2 : List Entry} {e : Entry} {σ : Id} (hw : SessWf st)
+    (hwf : WfHistory st (es1 ++ e :: es2)) (he : (e.type = 2 ∨ e.type = 5) ∧ e.session = σ)
+    (hq : ∀ e' ∈ es2, ¬((e'.type = 2 ∨ e'.type = 5) ∧ e'.session = σ) ∧ ¬(e'.type = 0 ∧ (⟨e'.id, 0⟩ : Id) = σ))
+    (hr : runEntries st (es1 ++ e :: es2) = .ok st')
+    (hdr : Option String) (idStr : String) (hauth : session st' hdr idStr = .ok σ) (data addr : String) :
+    handlePost st' hdr idStr e.cmid data addr = ⟨200, none⟩ := by
+  obtain ⟨⟨s', hs'⟩, hσ⟩ := session_stored hauth
+  have hm : s'.lastClientMessageId = e.cmid := by
+    cases hg : AMap.get st.sessions σ with
+    | none =>
+      have hm := C10_marker_is_last_cmid (m0 := 0) hw hwf hσ (fun s hs => by rw [hg] at hs; cases hs) hr hs'
+      rw [expectedMarker_last σ 0 es1 es2 e he hq] at hm
+      exact hm
+    | some s0 =>
+      have hm := C10_marker_is_last_cmid (m0 := s0.lastClientMessageId) hw hwf hσ
+        (fun s hs => by rw [hg] at hs; cases hs; rfl) hr hs'
+      rw [expectedMarker_last σ _ es1 es2 e he hq] at hm
+      exact hm
+  exact C10_retry_not_proposed st' hdr idStr σ s' e.cmid data addr hauth hs' hm
+
+/-! ### non-vacuity: a concrete state, entries and history -/
+
+def exAlice : Session :=
+  { id := ⟨1, 0⟩, nick := "alice", username := "al", loggedIn := true, channels := ["#c"], operator := true,
+    lastClientMessageId := 41, ircPrefix := ⟨"alice", "al", "robust/0x1"⟩ }
+def exBob : Session :=
+  { id := ⟨2, 0⟩, nick := "Bob", username := "bo", loggedIn := true, channels := ["#c"], remoteAddr := "10.0.0.2",
+    lastClientMessageId := 77, ircPrefix := ⟨"Bob", "bo", "robust/0x2"⟩ }
+def exChanC : Channel := { name := "#c", nicks := [("alice", { chanop := true }), ("bob", {})], modes := ['n', 't'] }
+/-- alice (IRC operator, marker 41) and Bob (marker 77) on `#c` -/
+def exSt : St :=
+  { sessions := [(⟨1, 0⟩, exAlice), (⟨2, 0⟩, exBob)]
+    nicks := [("alice", ⟨1, 0⟩), ("bob", ⟨2, 0⟩)]
+    channels := [("#c", exChanC)] }
+def mkE (type id : Nat) (session : Id) (data : String) (cmid : Nat) : Entry :=
+  { type := type, id := id, session := session, data := data, unixNano := 0, cmid := cmid, rev := 0,
+    remoteAddr := "", cfg := none }
+/-- Bob talks (cmid 78), alice kills Bob (cmid 42), a message of death of alice (cmid 43), a new session 13 -/
+def exHist : List Entry :=
+  [mkE 2 10 ⟨2, 0⟩ "PRIVMSG #c :hi" 78, mkE 2 11 ⟨1, 0⟩ "KILL bob :bye" 42, mkE 5 12 ⟨1, 0⟩ "boom" 43,
+   mkE 0 13 ⟨0, 0⟩ "auth" 0]
+
+theorem exSt_inv : GPInv exSt := ginv_of_ginvB (by decide)
+theorem exSt_wf : SessWf exSt := exSt_inv.sessWf
+theorem exHist_wf : WfHistory exSt exHist := wf_of_B (by decide +kernel)
+
+/-- the hypotheses of the entry-level theorems hold for the first entry, it applies, and Bob's marker
+moves from 77 to 78 while alice keeps 41 -/
+theorem C10_example_client_entry :
+    EntryOk exSt (mkE 2 10 ⟨2, 0⟩ "PRIVMSG #c :hi" 78) ∧
+    (applyEntry exSt (mkE 2 10 ⟨2, 0⟩ "PRIVMSG #c :hi" 78)).isOk = true ∧
+    markers (resSt (applyEntry exSt (mkE 2 10 ⟨2, 0⟩ "PRIVMSG #c :hi" 78))) = [(⟨1, 0⟩, 41), (⟨2, 0⟩, 78)] :=
+  ⟨entryOk_of_B (by decide), by decide +kernel, by decide +kernel⟩
+
+/-- a handler run that does change other sessions (KILL removes Bob from the channel and flags him)
+leaves both markers alone -/
+theorem C10_example_handler :
+    (cmdKill { st := exSt, msgid := 11 } ⟨1, 0⟩ ⟨none, "KILL", ["bob", "bye"]⟩).isOk = true ∧
+    (match cmdKill { st := exSt, msgid := 11 } ⟨1, 0⟩ ⟨none, "KILL", ["bob", "bye"]⟩ with
+      | .ok c => markers c.st | _ => []) = [(⟨1, 0⟩, 41), (⟨2, 0⟩, 77)] :=
+  ⟨by decide +kernel, by decide +kernel⟩
+
+/-- the history runs through; at the end alice and the new session are stored with the expected
+markers: 43 (the message of death, not the KILL before it) and 0 -/
+theorem C10_example_history :
+    (runEntries exSt exHist).isOk = true ∧
+    markers (runSt (runEntries exSt exHist)) = [(⟨1, 0⟩, 43), (⟨13, 0⟩, 0)] ∧
+    expectedMarker ⟨1, 0⟩ 41 exHist = 43 ∧ expectedMarker ⟨13, 0⟩ 0 exHist = 0 :=
+  ⟨by decide +kernel, by decide +kernel, by decide, by decide⟩
+
+/-- `C10_marker_is_last_cmid` instantiated on the example -/
+example {s' : Session} (hs' : AMap.get (runSt (runEntries exSt exHist)).sessions ⟨1, 0⟩ = some s') :
+    s'.lastClientMessageId = 43 := by
+  have h := C10_marker_is_last_cmid (σ := ⟨1, 0⟩) (m0 := 41) exSt_wf exHist_wf rfl
+    (fun s hs => by
+      have : AMap.get exSt.sessions ⟨1, 0⟩ = some exAlice := by decide
+      rw [this] at hs; cases hs; rfl)
+    (run_eq_of_isOk C10_example_history.1) hs'
+  rw [h]; exact C10_example_history.2.2.1
+
+/-- Why `SessWf` is assumed: in a (never reached) state where a session is stored under a key that
+is not its own id, `putS` writes to the *other* key — here AWAY of the session stored under `⟨1,0⟩`
+(whose `id` field says `⟨2,0⟩`) overwrites the session `⟨2,0⟩` and with it its marker (77 ↦ 41). -/
+theorem C10_counterexample_without_wf :
+    let bad : St := { sessions := [(⟨1, 0⟩, { exAlice with id := ⟨2, 0⟩ }), (⟨2, 0⟩, exBob)] }
+    (match cmdAway { st := bad, msgid := 1 } ⟨1, 0⟩ ⟨none, "AWAY", ["gone"]⟩ with
+      | .ok c => markers c.st | _ => []) = [(⟨1, 0⟩, 41), (⟨2, 0⟩, 41)] := by decide +kernel
 
 end Robust.Props.C10
